@@ -50,4 +50,27 @@ def rep(args):
     return repr((args["original_params"], args["macro_params"]))
 
 
-NATIVE = {M + ":ExplorerScriptMacro._process_parameters": {"gen": gen, "monitor": monitor, "repr": rep}}
+def g_sm(rng):
+    from contracts.native_source_map import g_map
+
+    return g_map(rng)
+
+
+def mon_get(table, meth):
+    def monitor_(args):
+        sm, off = args["self"], args["op_offset"]
+        t = getattr(sm, table)
+        r = getattr(sm, meth)(off)
+        if (off in t and r is not t[off]) or (off not in t and r is not None):
+            return f"{meth}({off}) = {r!r}; table has {sorted(t)}"
+        return None
+
+    return monitor_
+
+
+SMOD = "explorerscript.source_map"
+NATIVE = {
+    M + ":ExplorerScriptMacro._process_parameters": {"gen": gen, "monitor": monitor, "repr": rep},
+    SMOD + ":SourceMap.get_op_line_and_col__direct": {"gen": lambda r: {"self": g_sm(r), "op_offset": r.randint(-1, 13)}, "monitor": mon_get("_mappings", "get_op_line_and_col__direct"), "repr": lambda a: repr((sorted(a["self"]._mappings), a["op_offset"]))},
+    SMOD + ":SourceMap.get_op_line_and_col__macros": {"gen": lambda r: {"self": g_sm(r), "op_offset": r.randint(-1, 13)}, "monitor": mon_get("_mappings_macros", "get_op_line_and_col__macros"), "repr": lambda a: repr((sorted(a["self"]._mappings_macros), a["op_offset"]))},
+}
